@@ -42,6 +42,11 @@ for tc in ET.parse(xml).getroot().iter("testcase"):
     elif all(c.tag in ("system-out", "system-err", "properties") for c in tc):
         passed.add("%s::%s" % (tc.get("classname"), tc.get("name")))
 os.unlink(xml)
+# examples/symbolic/test_symbolic_7.py writes a scratch file "jeff" into the working directory
+junk = os.path.join(d, "jeff")
+if os.path.exists(junk) and subprocess.run(["git", "-C", d, "ls-files", "--error-unmatch", "jeff"],
+                                           capture_output=True).returncode != 0:
+    os.unlink(junk)
 missing = sorted(want - passed)
 print(r.stdout.strip().splitlines()[-1] if r.stdout.strip() else r.stderr[-500:])
 print("baseline stable_pass: %d ; passing now: %d ; baseline tests not passing: %d"
